@@ -1,7 +1,11 @@
 package jph
 
 import (
+	"context"
+	"database/sql"
 	"encoding/json"
+	"io"
+	"os"
 	"fmt"
 	"regexp"
 	"strconv"
@@ -35,19 +39,27 @@ func (c03) Count(tier string) int {
 
 // c03Rec records the errors user functions return during one call.
 type c03Rec struct {
-	n     int
-	texts map[string]string // error text -> function name
-	calls int
+	n        int
+	texts    map[string][]string // error text -> names of the functions that returned it
+	calls    int
+	sentinel error // class sentinel: every failing function returns exactly this error value
 }
 
-func (rc *c03Rec) reset() { rc.n, rc.calls, rc.texts = 0, 0, map[string]string{} }
+func (rc *c03Rec) reset() { rc.n, rc.calls, rc.texts = 0, 0, map[string][]string{} }
 
 func (rc *c03Rec) fail(name string) error {
 	rc.n++
-	e := fmt.Errorf("fail#%d", rc.n)
-	rc.texts[e.Error()] = name
+	var e error = fmt.Errorf("fail#%d", rc.n)
+	if rc.sentinel != nil {
+		e = rc.sentinel
+	}
+	rc.texts[e.Error()] = append(rc.texts[e.Error()], name)
 	return e
 }
+
+// c03Sentinels: error VALUES of the standard library a user function may well hand through. They are
+// errors like any other: the evaluation fails with ErrorFunctionFailed (or skips the member in a value group).
+var c03Sentinels = []error{io.EOF, io.ErrUnexpectedEOF, context.Canceled, os.ErrNotExist, context.DeadlineExceeded, io.ErrShortBuffer, os.ErrClosed, sql.ErrNoRows}
 
 // c03Config: the registry plus every function name of the text, all wrapped by the recorder.
 func c03Config(s string, acc bool, rc *c03Rec) *jsonpath.Config {
@@ -269,6 +281,8 @@ func c03Docs(r *Rng, base interface{}, hasBase bool, mult int) []c03Doc {
 
 // ---------- the oracle ----------
 
+var c03FailFns = []string{"failAll", "failAll", "failOdd", "twice"}
+
 var c03FuncRe = regexp.MustCompile(`(?s)^function failed \(function=(.*), error=(.*)\)$`)
 var c03FnTextRe = regexp.MustCompile(`^\.([-_a-zA-Z0-9]+)\(\)$`)
 
@@ -290,12 +304,17 @@ func c03Check(o Outcome, acc bool, rc *c03Rec) string {
 		if m == nil {
 			return "unreadable ErrorFunctionFailed: " + o.Msg
 		}
-		name, ok := rc.texts[m[2]]
+		names, ok := rc.texts[m[2]]
 		if !ok {
 			return "ErrorFunctionFailed carries an error no function returned during this call: " + o.Msg
 		}
-		if fm := c03FnTextRe.FindStringSubmatch(m[1]); fm == nil || fm[1] != name {
-			return fmt.Sprintf("ErrorFunctionFailed names %s but the error %s was returned by %s", m[1], m[2], name)
+		fm := c03FnTextRe.FindStringSubmatch(m[1])
+		found := false
+		for _, name := range names {
+			found = found || (fm != nil && fm[1] == name)
+		}
+		if !found {
+			return fmt.Sprintf("ErrorFunctionFailed names %s but the error %s was returned by %s", m[1], m[2], strings.Join(names, ", "))
 		}
 	}
 	return ""
@@ -321,6 +340,22 @@ func (c03) Exec(seed int64, i int, tier string) Record {
 	rc := &c03Rec{}
 	rc.reset()
 	acc := r.Chance(20)
+	if i%50 == 7 {
+		// class panic-probe (b11_helpers.go)
+		viol, tags, info := b11PanicProbe(r, acc)
+		rec := Record{Text: "(panic probe)", Tags: append(tags, "class:panic-probe"), Info: info, Viol: viol}
+		if viol != "" {
+			rec.Class = "after-panic"
+		}
+		if len(tags) > 0 {
+			rec.Key = "panic-probe/" + strings.Join(tags, ",") + fmt.Sprint(acc)
+		}
+		return rec
+	}
+	sentinel := i%20 == 11
+	if sentinel {
+		rc.sentinel = c03Sentinels[r.Intn(len(c03Sentinels))]
+	}
 	var s, gen string
 	var base interface{}
 	var hasBase bool
@@ -346,6 +381,23 @@ func (c03) Exec(seed int64, i int, tier string) Record {
 			en := c02Enum()
 			s, gen = en[r.Intn(len(en))], "enum"
 		}
+		if sentinel && genKind <= 1 {
+			// make sure a function fails: at the end of the path, inside a filter, or feeding an aggregate
+			t := s
+			switch r.Intn(4) {
+			case 0:
+				t = s + "." + r.Pick(c03FailFns) + "()"
+			case 1:
+				t = s + "." + r.Pick(c03FailFns) + "().count()"
+			case 2:
+				t = "$[?(" + "@" + strings.TrimPrefix(s, "$") + "." + r.Pick(c03FailFns) + "() != 'zz')]"
+			case 3:
+				t = s + "[?(@." + r.Pick(c03FailFns) + "())]"
+			}
+			if tf, _ := SafeParse(t, c03Config(t, acc, rc)); tf != nil {
+				s = t
+			}
+		}
 		cfg = c03Config(s, acc, rc)
 		var po Outcome
 		f, po = SafeParse(s, cfg)
@@ -361,6 +413,10 @@ func (c03) Exec(seed int64, i int, tier string) Record {
 	}
 	if acc {
 		rec.Tags = append(rec.Tags, "acc")
+	}
+	if sentinel {
+		rec.Tags = append(rec.Tags, "class:sentinel-error")
+		rec.Info["sentinel"] = fmt.Sprintf("%T %v", rc.sentinel, rc.sentinel)
 	}
 	if c03HasBig(s) {
 		rec.Tags = append(rec.Tags, "bigint")
